@@ -15,6 +15,7 @@ import (
 )
 
 func runC07(line string) string {
+	loadFactor = measureLoad() // the machine's load may have changed since the process started
 	hd := strings.SplitN(line, " # ", 2)
 	f := strings.Fields(hd[0])
 	n, _ := strconv.Atoi(f[0])
@@ -70,7 +71,7 @@ func runC07(line string) string {
 			if ok && idle {
 				if idleSince.IsZero() {
 					idleSince = time.Now()
-				} else if time.Since(idleSince) > 45*time.Millisecond {
+				} else if time.Since(idleSince) > time.Duration(float64(80*time.Millisecond)*loadFactor) {
 					return
 				}
 			} else {
